@@ -17,6 +17,7 @@ THEOREMS = {
     'RsomeV.Props.C06': ['RsomeV.C06.dispatch_total', 'RsomeV.C06.layers_found', 'RsomeV.C06.legacy_N_objective_dropped'],
     'RsomeV.Props.AtomsSoc': ['RsomeV.AtomsSoc.abs_sound', 'RsomeV.AtomsSoc.norm1_sound', 'RsomeV.AtomsSoc.norminf_sound', 'RsomeV.AtomsSoc.norm2_sound', 'RsomeV.AtomsSoc.square_sound', 'RsomeV.AtomsSoc.sumsqr_sound', 'RsomeV.AtomsSoc.rsocone_sound', 'RsomeV.AtomsSoc.foldBounds_spec', 'RsomeV.AtomsSoc.foldBounds_perm', 'RsomeV.AtomsSoc.foldBounds_feas'],
     'RsomeV.Props.AtomsExp': ['RsomeV.AExp.exp_sound', 'RsomeV.AExp.log_sound', 'RsomeV.AExp.pexp_sound', 'RsomeV.AExp.plog_sound', 'RsomeV.AExp.entropy_sound', 'RsomeV.AExp.softplus_sound', 'RsomeV.AExp.kl_sound', 'RsomeV.AExp.encodeAtoms_sound'],
+    'RsomeV.Props.AtomsSum': ['RsomeV.ASum.expsum_sound', 'RsomeV.ASum.logsum_sound', 'RsomeV.ASum.expsum_sound_groups', 'RsomeV.ASum.logsum_sound_groups'],
 }
 RULE = ("random deterministic models (1-3 variables, several bounds per entry in either order, <=/>=/== rows, 0-2 atom constraints "
         "with scaling and affine offset, linear or atom objective, min or max) through ro.Model and single-scenario dro.Model; "
@@ -143,6 +144,7 @@ def run(ctx):
     # correspondence: the Lean atom encoders vs the real do_math() on random single- and multi-atom models (exact)
     C.run_difftest(ctx, 'test_atoms_soc.py', ctx.n(150, 3000), 'atom encodings A/M/I/E/S/Q/rsocone, bound folding, vtype vector')
     C.run_difftest(ctx, 'test_atoms_exp.py', ctx.n(120, 2500), 'atom encodings X/L/P/F/pexp/plog/KL')
+    C.run_difftest(ctx, 'test_atoms_sum.py', ctx.n(80, 1500), 'summed exp/log atoms: exp(e).sum(axis) <= t, log(e).sum(axis) >= t')
     C.run_difftest(ctx, 'test_det_model.py', ctx.n(80, 1500), 'whole deterministic do_math(): several atoms, rows, bounds, vtypes, affine/atom objective')
     summed_forms(ctx)
     for k in range(ctx.n(300, 5000)):
